@@ -132,13 +132,18 @@ def _factory(params, env=None):
                 if params.get("edit_after_fault") and F.fired and not second["done"]:
                     if first and not lab.p[first[0]].connected:
                         return           # the account is reachable for its user only once the client is connected again: try after a later step
+                    if params.get("edit_after_fault") == "peer" and not (lab.p[0].connected and lab.p[1].connected):
+                        return
                     second["done"] = True
                     was = F.active
                     F.active = False
                     try:
                         tgt = {"create_b": "write_b", "write_a": "write_a", "create_d_a": "write_d_a", "rename_a_b": "write_b", "move_a_d": "write_d_a"}.get(first[1] if first else None)
                         if tgt:
-                            sd = first[0]
+                            sd = first[0] if params.get("edit_after_fault") != "peer" else 1 - first[0]
+                            if params.get("edit_after_fault") == "peer":
+                                # the first side's own change is known to the engine (its event was delivered) before the peer edits its copy
+                                run_step(lab, first[0])
                             i2 = lab.user(lambda: lab.p[sd].info_path(lab.roots[sd] + "/" + "/".join(tgt.split("_")[1:])))
                             before2 = None
                             if i2:
@@ -149,7 +154,11 @@ def _factory(params, env=None):
                             if d2[0] == "write":
                                 live[d2[2]] = d2[1]
                                 if before2 is not None:
-                                    live.pop(before2, None)
+                                    live.pop(before2, None)      # the version held by the file the user overwrote (on the peer that is the first side's version only if it had been copied there already)
+                            if params.get("edit_after_fault") == "peer":
+                                # the sync manager retries before the peer's event manager has delivered that edit
+                                for _ in range(2):
+                                    run_step(lab, 2)
                     finally:
                         F.active = was
             drain(lab, h, after_step=edit_while_retrying)
@@ -311,6 +320,9 @@ def jobs(tier):
                 if op in ("create_b", "write_a", "create_d_a"):
                     out.append({"harness": "faults", "params": {"flavour": f, "nops": 1, "faults": 1, "maxat": 30, "first": [side, op], "edit_after_fault": True},
                                 "label": "%s/1-op/1-fault+edit-while-retrying/first=%d:%s" % (f, side, op)})
+                if op == "write_a":
+                    out.append({"harness": "faults", "params": {"flavour": f, "nops": 1, "faults": 1, "maxat": 30, "first": [side, op], "edit_after_fault": "peer"},
+                                "label": "%s/1-op/1-fault+peer-edit-before-the-retry/first=%d:%s" % (f, side, op)})
                 if f == "oid" or not q:
                     out.append({"harness": "faults", "params": {"flavour": f, "nops": 2, "faults": 1, "maxat": 24 if q else 40, "first": [side, op]},
                                 "label": "%s/2-ops/1-fault/first=%d:%s" % (f, side, op)})
